@@ -57,8 +57,8 @@ func (f fate) String() string {
 }
 
 const (
-	ttlShort = 20      // ms: expires with the first clock step
-	ttlAlive = 60000   // ms: alive until a big clock jump
+	ttlShort = 20    // ms: expires with the first clock step
+	ttlAlive = 60000 // ms: alive until a big clock jump
 )
 
 type mutation struct {
@@ -82,7 +82,7 @@ type txn struct {
 	muts        []mutation // muts[0] is the primary
 	locked      map[string]bool
 	failed      bool
-	finished    bool // the driver sent the primary's commit or rollback
+	finished    bool   // the driver sent the primary's commit or rollback
 	brokenKey   string // async commit: the secondary that was never prewritten / was rolled back by the owner
 }
 
